@@ -33,6 +33,8 @@
   * `write` is addressed by path; between `open` and `close` of a temp file nothing renames
     or unlinks that path as long as the two writers' temp names differ (pidA ≠ pidB);
   * a failed call has no effect on the file system;
+  * only `open` checks the length of the name (the other calls are reached after it succeeded,
+    and the target's own name exists, hence fits);
   * no permission checks (the checks run as the file's owner; error paths are reached by
     fault injection), no hard links, no directories.
 -/
@@ -58,6 +60,7 @@ abbrev Errno := Nat
 def ENOENT : Errno := 2
 /-- stands for the Python-level `NameError`/misuse that the real call sequence never reaches -/
 def EINTERNAL : Errno := 0
+def ENAMETOOLONG : Errno := 36
 
 inductive Op (α : Type) where
   | openTrunc (p : Path)
@@ -76,10 +79,12 @@ def Op.guarded {α : Type} : Op α → Bool
   | .chown _ => true
   | _ => false
 
-/-- creation attributes: `0666 & ~umask`, effective gid -/
+/-- creation attributes: `0666 & ~umask`, effective gid; `nameMax` = the directory's
+`pathconf(PC_NAME_MAX)` (paths of the model are names inside one directory) -/
 structure Env where
   dflt : Nat
   dgid : Nat
+  nameMax : Nat
 
 /-- what `st = os.stat(target)` saved: (st_mode permission bits, st_gid) -/
 abbrev StatRes := Option (Nat × Nat)
@@ -87,7 +92,8 @@ abbrev StatRes := Option (Nat × Nat)
 /-- kernel effect of one call issued by a process whose saved stat result is `st` -/
 def sys {α : Type} (env : Env) (fs : FS α) (st : StatRes) : Op α → Except Errno (FS α × StatRes)
   | .openTrunc p =>
-    match fs p with
+    if env.nameMax < p.length then .error ENAMETOOLONG      -- the temp name of a long target name does not fit
+    else match fs p with
     | some f => .ok (fs.set p (some { f with content := [] }), st)
     | none => .ok (fs.set p (some ⟨[], env.dflt, env.dgid⟩), st)
   | .write p c =>
